@@ -427,11 +427,47 @@ class Interp(object):
     def s_Continue(self, st, node):
         return [(st, "continue", None)]
 
-    def s_Import(self, st, node):
+    def s_Global(self, st, node):
         return [(st, "next", None)]
 
-    s_ImportFrom = s_Import
-    s_Global = s_Import
+    def s_Import(self, st, node):
+        """import a.b [as c] inside a function: the name is a local of that function"""
+        if not st.frames or st.frames[-1].get("@body") is None:
+            return [(st, "next", None)]
+        for a in node.names:
+            if a.asname:
+                full, local = a.name, a.asname
+            else:
+                full = local = a.name.split(".")[0]
+            m = self.ix.modules.get(full)
+            st.frames[-1][local] = self.x_resolved(st, m if m is not None else ("ext", full), local)
+        return [(st, "next", None)]
+
+    def s_ImportFrom(self, st, node):
+        """from m import n [as a] inside a function (relative imports are resolved against the function's module)"""
+        if not st.frames or st.frames[-1].get("@body") is None:
+            return [(st, "next", None)]
+        base = node.module or ""
+        if node.level:
+            mod = self.cur_func.module.name if self.cur_func is not None else ""
+            parts = mod.split(".")
+            if not (self.cur_func is not None and getattr(self.cur_func.module, "is_package", False)):
+                parts = parts[:-1]
+            parts = parts[:len(parts) - (node.level - 1)] if node.level > 1 else parts
+            base = ".".join(parts + ([node.module] if node.module else []))
+        for a in node.names:
+            if a.name == "*":
+                continue
+            local = a.asname or a.name
+            full = base + "." + a.name
+            if full in self.ix.modules:
+                r = self.ix.modules[full]
+            elif base in self.ix.modules:
+                r = self.ix.resolve_name(self.ix.modules[base], a.name) or ("ext", full)
+            else:
+                r = ("ext", full)
+            st.frames[-1][local] = self.x_resolved(st, r, local)
+        return [(st, "next", None)]
 
     def s_Delete(self, st, node):
         states = [st]
